@@ -170,6 +170,7 @@ def features(spec):
         "link_tank_to_tank": any(l["start"] in tanks and l["end"] in tanks for l in elinks),
         "link_reservoir_to_reservoir": any(l["start"] not in tanks and l["end"] not in tanks and
                                            {l["start"], l["end"]} <= set(n["name"] for n in srcs) for l in elinks),
+        "valve_setting_changed_by_control": bool(spec.get("controls")),
         "reversed_links": any(e["op"] == "reverse" for e in spec.get("edits", [])),
         "end_node_reassigned": any(e["op"] != "reverse" for e in spec.get("edits", [])),
         "end_node_reassigned_to_tank": any(e["op"] != "reverse" and e["node"] in tanks for e in spec.get("edits", [])),
